@@ -143,6 +143,26 @@ def run(payload):
             fails.append({"id": "adaptive.rkf45_stage_times", "t0": t0, "dt": h, "got": eq.times[:6], "want": (t0 + nodes * h).tolist()})
         elif not np.allclose(state.data - u_start, prim(t_end) - prim(t0), rtol=0, atol=1e-10):
             fails.append({"id": "adaptive.rkf45_cubic_quadrature_not_exact", "t0": t0, "dt": h, "got": (state.data - u_start).tolist(), "want": float(prim(t_end) - prim(t0))})
+    # ---- iterative solvers on states with several axes whose leading entries vanish (the convergence measure is the
+    #      mean square over ALL entries): converged iterations realise the scheme's factor on every entry
+    from pde import FieldCollection, VectorField
+    g2 = UnitGrid([3, 4])
+    blob = np.zeros((3, 4)); blob[1:, 1:] = rng.uniform(0.5, 2, (2, 3))
+    states = {"scalar2d": ScalarField(g2, blob), "collection": FieldCollection([ScalarField(grid, 0.0), ScalarField(grid, rng.uniform(0.5, 2, 3))]),
+              "vector2d": VectorField(g2, np.stack([np.zeros((3, 4)), blob]))}
+    for solver, factor in (("crank-nicolson", lambda z: (1 + z / 2) / (1 - z / 2)), ("implicit", lambda z: 1 / (1 - z))):
+        for backend in ["numpy", "numba"]:
+            for name, st in states.items():
+                a, dt, n = -0.8, 0.25, 3
+                cases += 1
+                try:
+                    res = Lin(a).solve(st, t_range=n * dt, dt=dt, solver=solver, backend=backend, tracker=None, maxerror=1e-13, maxiter=1000)
+                except Exception as e:
+                    fails.append({"id": f"{solver}.{backend}.multi_axis_state", "state": name, "error": f"{type(e).__name__}: {e}"})
+                    continue
+                dev = float(np.max(np.abs(res.data - st.data * factor(a * dt) ** n)))
+                if dev > 1e-9:
+                    fails.append({"id": f"{solver}.{backend}.multi_axis_state", "state": name, "a": a, "dt": dt, "n": n, "deviation": dev})
     # ---- adaptive Euler (step doubling, the rate of the accepted state is reused by the next step): two accepted steps
     #      of size h on the quadrature du/dt = b t; stage times t, t + h/2 and t + h for the reused rate
     from pde.solvers import EulerSolver
